@@ -2,7 +2,7 @@ import Model.Parse
 import Proofs.Parse
 import Proofs.NameText
 import Proofs.NameWire
-import Props.C02
+import Proofs.ParseOffsets
 /-!
 # C04 — untrusted wire or text input only ever raises the library's own errors
 
@@ -155,17 +155,73 @@ theorem read_cont_clean_iff_strict (w : Bytes) (it qo : Bool) (c : List Nat) :
                 simp only [htr, if_false]
                 exact h
 
-/-- "every value returned can be rendered to … wire again": for every regular entry of the record-type
-table (the 64 schema-described implemented types; `Model.RdataTable`, tied to the code by the C02
-correspondence check), whatever octets are offered as RDATA, with or without an origin — if the decoder
-returns a value, that value encodes, and its encoding decodes to the same value and re-encodes to itself.
-(Corollary of `C02.regular_types_fixpoint`, restated here because it is the wire-side "parsed renders" clause
-of this property.) -/
-theorem rdata_parsed_rerenders : ∀ e ∈ table, e.custom = none → ∀ (o : Option Name) (pfx rdata : Bytes) (v : Val),
-    OctetsOkB rdata → NameSound o → e.decode o pfx rdata = .ok v →
-    ∀ pfx', e.decode o pfx' (e.encode o v) = .ok v ∧
-      (∀ v', e.decode o pfx' (e.encode o v) = .ok v' → e.encode o v' = e.encode o v) :=
-  C02.regular_types_fixpoint
+/-- "failures after the header are recorded with their offset": whatever the octets and options, every
+offset recorded in the returned message's `errors` lies inside the message (it is the parser position at
+which the exception left the record, or the position a failed header read left behind). -/
+theorem recorded_offsets_inside (w : Bytes) (o : ReadOpts) (c : List Nat) (errs : List (String × Nat))
+    (h : readMsg w o = .message c errs) : ∀ p ∈ errs, p.2 ≤ w.length := by
+  unfold readMsg at h
+  by_cases hlen : w.length < 12
+  · simp [hlen] at h
+  simp only [hlen, if_false] at h
+  by_cases hop : be ((w.drop 2).take 2) / 2048 % 16 = 5
+  · simp [hop] at h
+  simp only [hop, if_false] at h
+  have h0 : RInv w { cur := 12, fur := 12, errs := [], counts := [0, 0, 0, 0] } :=
+    ⟨by simp; omega, by simp; omega, by simp⟩
+  -- every way out returns the errors of a state satisfying the invariant, possibly extended by one
+  -- record at that state's parser position
+  have key : ∀ (r : ROut), r.Inv w → ∀ (c' : List Nat) (errs' : List (String × Nat)),
+      (match r with
+        | .unsupported => ReadResult.unsupported
+        | .ok s => .message s.counts s.errs
+        | .raised e s => if o.cont = true then .message s.counts (s.errs ++ [(e, s.cur)]) else .exc e) = .message c' errs' →
+      ∀ p ∈ errs', p.2 ≤ w.length := by
+    intro r hr c' errs' hm p hp
+    cases r with
+    | unsupported => simp at hm
+    | ok s => simp at hm; obtain ⟨_, rfl⟩ := hm; exact hr.2.2 p hp
+    | raised e s =>
+      simp only at hm
+      split at hm
+      · simp at hm; obtain ⟨_, rfl⟩ := hm
+        simp at hp; rcases hp with hp | hp
+        · exact hr.2.2 p hp
+        · subst hp; exact hr.1
+      · simp at hm
+  have hq := readQuestions_inv w (be ((w.drop 4).take 2)) _ h0
+  cases hq1 : readQuestions w (be ((w.drop 4).take 2)) { cur := 12, fur := 12, errs := [], counts := [0, 0, 0, 0] } with
+  | unsupported => rw [hq1] at h; simp at h
+  | raised e s => rw [hq1] at hq h; exact key _ hq c errs h
+  | ok s1 =>
+    rw [hq1] at hq h
+    simp only at h
+    split at h
+    · simp at h; obtain ⟨_, rfl⟩ := h; exact hq.2.2
+    · have ha := readSection_inv w o.cont 1 (be ((w.drop 6).take 2)) s1 hq
+      cases ha1 : readSection w o.cont 1 (be ((w.drop 6).take 2)) s1 with
+      | unsupported => rw [ha1] at h; simp at h
+      | raised e s => rw [ha1] at ha h; exact key _ ha c errs h
+      | ok s2 =>
+        rw [ha1] at ha h
+        simp only at h
+        have hb := readSection_inv w o.cont 2 (be ((w.drop 8).take 2)) s2 ha
+        cases hb1 : readSection w o.cont 2 (be ((w.drop 8).take 2)) s2 with
+        | unsupported => rw [hb1] at h; simp at h
+        | raised e s => rw [hb1] at hb h; exact key _ hb c errs h
+        | ok s3 =>
+          rw [hb1] at hb h
+          simp only at h
+          have hc := readSection_inv w o.cont 3 (be ((w.drop 10).take 2)) s3 hb
+          cases hc1 : readSection w o.cont 3 (be ((w.drop 10).take 2)) s3 with
+          | unsupported => rw [hc1] at h; simp at h
+          | raised e s => rw [hc1] at hc h; exact key _ hc c errs h
+          | ok s4 =>
+            rw [hc1] at hc h
+            simp only at h
+            split at h
+            · exact key (.raised "TrailingJunk" s4) hc c errs h
+            · simp at h; obtain ⟨_, rfl⟩ := h; exact hc.2.2
 
 /-- non-vacuity: a 12-octet header with all counts zero is read cleanly in both modes -/
 example : readMsg [0,1,0,0,0,0,0,0,0,0,0,0] { cont := true, ignoreTrailing := false, questionOnly := false }
